@@ -64,9 +64,10 @@ type Universe struct {
 	MaxBlockTxs   int
 	MaxReorgTxs   int
 	Standalone    bool
-	// DisconnectEvicts selects the repaired NTBlockDisconnected protocol in the
-	// specification (VERIF_FIXED_DISCONNECT=1: used to validate the proposed patch).
-	DisconnectEvicts bool
+	// LegacyDisconnect selects the NTBlockDisconnected protocol before btcd
+	// d5392345 in the specification (never set by the checks; VERIF_LEGACY_DISCONNECT=1
+	// documents the repaired defect against an old tree).
+	LegacyDisconnect bool
 	// Scripted, when non-empty, is the only schedule explored: {kind, tx} with
 	// kind 1 ProcessTx(tx, true), 2 CheckAccept(tx), 3 RemoveTx(tx, true)
 	// (boundary scenarios with a hundred transactions).
@@ -202,7 +203,7 @@ func (u *Universe) Module(modName, base string, c *Concrete, extraDefs, cfgTail 
 	fmt.Fprintf(&cf, " N = %d\n TxIns <- U_TxIns\n TxNOut <- U_TxNOut\n TxFee <- U_TxFee\n TxVSize <- U_TxVSize\n TxSize <- U_TxSize\n", len(u.Txs))
 	cf.WriteString(" TxRbf <- U_TxRbf\n TxCls <- U_TxCls\n TxWit <- U_TxWit\n SlotParent <- U_SlotParent\n")
 	fmt.Fprintf(&cf, " NFund = %d\n Maturity = %d\n RejectRepl = %s\n MaxOrphans = %d\n MaxOrphanSize = %d\n MinRelayFee = %d\n FreeLimit = %d\n MaxEvict = %d\n MaxBlockTxs = %d\n MaxReorgTxs = %d\n Standalone = %s\n DisconnectEvicts = %s\n",
-		u.NFund, u.Maturity, tlaBool(u.RejectRepl), u.MaxOrphans, u.MaxOrphanSize, u.MinRelayFee, u.FreeLimit, u.MaxEvict, u.MaxBlockTxs, u.MaxReorgTxs, tlaBool(u.Standalone), tlaBool(u.DisconnectEvicts || os.Getenv("VERIF_FIXED_DISCONNECT") != ""))
+		u.NFund, u.Maturity, tlaBool(u.RejectRepl), u.MaxOrphans, u.MaxOrphanSize, u.MinRelayFee, u.FreeLimit, u.MaxEvict, u.MaxBlockTxs, u.MaxReorgTxs, tlaBool(u.Standalone), tlaBool(!(u.LegacyDisconnect || os.Getenv("VERIF_LEGACY_DISCONNECT") != "")))
 	cf.WriteString(" Script <- U_Script\n")
 	cf.WriteString(cfgTail)
 	return sb.String(), cf.String()
